@@ -681,8 +681,7 @@ def run(ctx):
     need = ['invariant-scan', 'signer-judged', 'operation-repeated', 'crash-reopen', 'op-del_key', 'op-del_identity', 'op-reopen',
             'op-import_cert', 'signer-deleted-key-refused']
     for k in need:
-        if not ctx.events.get(k):
-            ctx.inconclusive(f'{k}: nothing observed')
+        ctx.need_event(k)
     ctx.assumptions = ['crash points are simulated by abandoning the SQLite connection without commit (SQLite\'s atomic commit is trusted)',
                        'after an injected fault the model is re-synchronised from the store; the repeated operation is judged by its postcondition and the invariants',
                        'get_signer with str/bytes names raising is not judged; orphan private-key files after a fault are observations unless the key was deleted']
